@@ -157,7 +157,8 @@ def impl_sig(case):
 
     def call(a, b):
         try:
-            r = sigma_separated(G, set(a), set(b), set(Z))
+            wrap = frozenset if case.get("fam") == "nested" else set
+            r = sigma_separated(G, wrap(a), wrap(b), wrap(Z))
             return "T" if r is True else ("F" if r is False else "bad:" + repr(r))
         except nx.NetworkXError as e:
             return "err:cyclic" if "acyclic" in str(e) else "err:nx"
